@@ -437,23 +437,23 @@ theorem foldl_bad (log : List AddCall) : ∀ (m : Matcher) (a : AddCall), m.err 
       rw [this, he]
 
 theorem replay_ok (n : Nat) (log : List AddCall) (hall : ∀ a ∈ log, callOk n a = true) :
-    (Matcher.replay n log).err = none ∧ (Matcher.replay n log).sets.size = n ∧
-    ∀ i, i < n → (Matcher.replay n log).sets[i]? = some (setOf log i) := by
+    (Matcher.replayCore n log).err = none ∧ (Matcher.replayCore n log).sets.size = n ∧
+    ∀ i, i < n → (Matcher.replayCore n log).sets[i]? = some (setOf log i) := by
   have h := foldl_ok log (Matcher.new n) rfl (by simpa [Matcher.new] using hall)
   simp only [Matcher.new, Array.size_replicate] at h
-  have e : Matcher.replay n log = log.foldl stepAdd ⟨Array.replicate n {}, none⟩ := rfl
+  have e : Matcher.replayCore n log = log.foldl stepAdd ⟨Array.replicate n {}, none⟩ := rfl
   refine ⟨by rw [e]; exact h.1, by rw [e]; exact h.2.1, ?_⟩
   intro i hi
   have := h.2.2 i
-  have e : Matcher.replay n log = log.foldl stepAdd ⟨Array.replicate n {}, none⟩ := rfl
+  have e : Matcher.replayCore n log = log.foldl stepAdd ⟨Array.replicate n {}, none⟩ := rfl
   rw [e, this]
   simp [hi, SetBuild.app]
 
 theorem replay_bad (n : Nat) (log : List AddCall) (a : AddCall)
     (h : log.find? (fun a => !callOk n a) = some a) :
-    (Matcher.replay n log).err = some (callErr n a) := by
+    (Matcher.replayCore n log).err = some (callErr n a) := by
   have := foldl_bad log (Matcher.new n) a rfl (by simpa [Matcher.new] using h)
-  have e : Matcher.replay n log = log.foldl stepAdd (Matcher.new n) := rfl
+  have e : Matcher.replayCore n log = log.foldl stepAdd (Matcher.new n) := rfl
   rw [e]
   simpa [Matcher.new] using this
 
@@ -620,10 +620,10 @@ theorem mapM_ok_of_forall {α β : Type} (f : α → Except MErr β) (g : α →
 /-- **Build succeeds** whenever every `AddSet` call was acceptable, and set `i` of the result is a
 function of the calls addressed to `i` only. -/
 theorem build_ok (n : Nat) (log : List AddCall) (hall : ∀ a ∈ log, callOk n a = true) :
-    ∃ b, (Matcher.replay n log).build = .ok b ∧ b.sets.size = n ∧
+    ∃ b, (Matcher.replayCore n log).build = .ok b ∧ b.sets.size = n ∧
       ∀ i, i < n → b.sets[i]? = some (builtOf (setOf log i)) := by
   obtain ⟨h1, h2, h3⟩ := replay_ok n log hall
-  have hl : (Matcher.replay n log).sets.toList = (List.range n).map (setOf log) := by
+  have hl : (Matcher.replayCore n log).sets.toList = (List.range n).map (setOf log) := by
     apply List.ext_getElem?
     intro i
     rw [Array.getElem?_toList]
@@ -644,7 +644,7 @@ theorem build_ok (n : Nat) (log : List AddCall) (hall : ∀ a ∈ log, callOk n 
 
 theorem build_err (n : Nat) (log : List AddCall) (a : AddCall)
     (h : log.find? (fun a => !callOk n a) = some a) :
-    (Matcher.replay n log).build = .error (callErr n a) := by
+    (Matcher.replayCore n log).build = .error (callErr n a) := by
   unfold Matcher.build
   rw [replay_bad n log a h]
 
